@@ -103,7 +103,7 @@ class Advance(Unit):
         states = ex.sym(TSeq(EN.TS()), "states")
         ex.assume(z3.Length(states.t) >= 1)
         last = states.t[z3.Length(states.t) - 1]
-        ex.assume(state_domain(last))
+        ex.assume(EN.st_bpm(last) > 0)      # precondition of advance (re-checked at its call site in _retime_events)
         sm = SM.new_userlist(e.TimingStateMachine, states, "self")
         ev = ex.sym(EN.TG(), "event")
         kind, r = ex.run_function(ex.closure_of(Q + "TimingStateMachine.advance", owner=e.TimingStateMachine), [sm, ev])
@@ -539,3 +539,191 @@ class CoalesceWarps(Unit):
                  "WARP and WARP_END events strictly alternate: every segment is non-empty and ends before the next one starts")
 
 
+
+
+# ---------------------------------------------------------------------------
+# _retime_events: the state list is the fold of the state-machine step over the merged events, the look-up tables are
+# its projections (this is what establishes SM_inv, the representation invariant the look-ups start from)
+
+
+def _merge_model(ex, args, kwargs):
+    """T-STD heapq.merge(*lists): a sequence as long as the inputs together, every element of which is an element of one input
+    (on inputs that are each sorted it is their sorted merge)"""
+    import simfile.timing.engine as e
+    TG = EN.TG()
+    ex.assumptions_used.add("T-STD: heapq.merge yields as many elements as its inputs hold, each one an element of some input (sorted when every input is)")
+    if kwargs:
+        raise Unsupported("heapq.merge with key=/reverse=")
+    lists = []
+    for a in args:
+        it = M.iterable(ex, a)
+        if not isinstance(it, M.SymIter):
+            it_list = list(it)
+            it = M.SymIter(z3.IntVal(len(it_list)), (lambda ex_, i, L=it_list: (_ for _ in ()).throw(Unsupported("concrete merge input"))), "concrete") if it_list else \
+                M.SymIter(z3.IntVal(0), lambda ex_, i: None, "empty")
+        lists.append(it)
+    mg = fresh_term(TSeq(TG).sort(), "merged")
+    total = z3.IntVal(0)
+    for it in lists:
+        ex.assume(it.length >= 0)
+        total = total + it.length
+    ex.assume(z3.Length(mg) == total)
+    ex.ghost["merge"] = dict(inputs=lists, out=mg)
+
+    def facts(ex_, i):
+        alts = []
+        for a, it in enumerate(lists):
+            if z3.is_int_value(z3.simplify(it.length)) and z3.simplify(it.length).as_long() == 0:
+                continue
+            j = fresh_term(z3.IntSort(), f"from{a}")
+            x = it.at(ex_, j)
+            alts.append(z3.And(j >= 0, j < it.length, mg[i] == (x.term() if isinstance(x, NTVal) else term(x, TG))))
+        return [z3.Or(alts) if alts else z3.BoolVal(False)]
+
+    return M.SymIter(z3.Length(mg), lambda ex_, i: _wrap_field(TG, mg[i]), "merge", facts=facts)
+
+
+def install_merge():
+    import heapq
+    M.REAL_CALL[heapq.merge] = _merge_model
+
+
+install_merge()
+
+
+class RetimeEvents(Unit):
+    name = "TimingEngine._retime_events"
+    functions = (Q + "TimingEngine._retime_events",)
+    expected = ["_retime_events#loop0:inv-keep:states", "post:initial-state", "call-pre:merge-inputs", "post:lookup-tables-are-projections",
+                "lemma:step-keeps-domain", "lemma:step-time-monotone"]
+    LQ = Q + "TimingEngine._retime_events"
+
+    def run(self, ex):
+        from pyvc.execu import LoopSpec, field_slot
+        e, t = EN.E(), EN.T()
+        BV, TS_, TG = TNT(t.BeatValue), EN.TS(), EN.TG()
+        SEQ = TSeq(BV)
+        bpms, stops, delays = ex.sym(SEQ, "bpms"), ex.sym(SEQ, "stops"), ex.sym(SEQ, "delays")
+        wstarts, wends = ex.sym(SEQ, "warp_starts"), ex.sym(SEQ, "warp_ends")
+        offset = ex.sym(DEC, "offset")
+        ex.assume(z3.Length(bpms.t) >= 1)      # BeatValues parsing of BPMS gives at least one change on every timed simfile (C15)
+        td = HObj(t.TimingData, {"bpms": SM.new_userlist(t.BeatValues, bpms, "bpms"), "stops": SM.new_userlist(t.BeatValues, stops, "stops"),
+                                 "delays": SM.new_userlist(t.BeatValues, delays, "delays"), "offset": offset}, "timing_data")
+        eng = HObj(e.TimingEngine, {"timing_data": td}, "self")
+
+        def coalesce(ex_, a, k):
+            ex_.assumptions_used.add("callee contract _coalesce_warps: (starts, WARP), (ends, WARP_END) (proved in unit TimingEngine._coalesce_warps)")
+            return [(SM.new_userlist(t.BeatValues, wstarts, "warp_starts"), e.EventTag.WARP), (SM.new_userlist(t.BeatValues, wends, "warp_ends"), e.EventTag.WARP_END)]
+
+        def advance(ex_, a, k):
+            ex_.assumptions_used.add("callee contract TimingStateMachine.advance: appends spec_step(last, event) (proved in unit TimingStateMachine.advance)")
+            sm_, ev = a
+            d = sm_.fields["data"]
+            dt = d.t if is_sym(d) else TSeq(TS_).lift(d)
+            last = dt[z3.Length(dt) - 1]
+            ex_.prove("call-pre:advance", z3.And(z3.Length(dt) >= 1, EN.st_bpm(last) > 0), "advance needs a last state with a non-zero BPM")
+            evt = ev.term() if isinstance(ev, NTVal) else term(ev, TG)
+            ex_.setfield(sm_, "data", SV(z3.Concat(dt, z3.Unit(EN.spec_step(last, evt))), TSeq(TS_)))
+            return None
+
+        ex.callee_contracts[Q + "TimingEngine._coalesce_warps"] = coalesce
+        ex.callee_contracts[Q + "TimingStateMachine.advance"] = advance
+        STS = TSeq(TS_)
+        FOLD = z3.Function("fold_states", TS_.sort(), TSeq(TG).sort(), z3.IntSort(), STS.sort())
+        st = {}
+
+        def mg():
+            return ex.ghost["merge"]["out"]
+
+        def init_of(fr):
+            return st["init"]
+
+        def inv(ex_, fr, i, vals):
+            s = vals["states"].t
+            return [("states", s == FOLD(st["init"], mg(), i)), ("length", z3.Length(s) == i + 1),
+                    ("bpm-positive", EN.st_bpm(s[z3.Length(s) - 1]) > 0)]
+
+        def using(ex_, fr, i, vals):
+            m = mg()
+            if "init" not in st:
+                d0 = fr.loop_entry[(self.LQ, 0)]["states"].t
+                st["init"] = d0[0]
+                st["entry"] = d0
+            f0 = FOLD(st["init"], m, z3.IntVal(0))
+            fi, fi1 = FOLD(st["init"], m, i), FOLD(st["init"], m, i + 1)
+            return [f0 == z3.Unit(st["init"]),
+                    z3.Implies(z3.And(i >= 0, i < z3.Length(m)), fi1 == z3.Concat(fi, z3.Unit(EN.spec_step(fi[z3.Length(fi) - 1], m[i]))))]
+
+        ex.loop_specs[(self.LQ, 0)] = LoopSpec([field_slot("states", lambda ex_, fr: fr.locals["self"].fields["_state_machine"], "data", STS)], inv, using)
+        # the property's domain for the sources (instantiated at the index the merge draws from)
+        k0 = z3.Int("k!dom")
+        for sq, strict in ((bpms, True), (stops, False), (delays, False), (wstarts, False), (wends, False)):
+            v = BV.acc(sq.t[k0], "value")
+            ex.assume(z3.ForAll([k0], z3.Implies(z3.And(k0 >= 0, k0 < z3.Length(sq.t)), (v > 0) if strict else (v >= 0))),
+                      "C11 domain: BPM values are positive, stop / delay lengths are not negative")
+        kind, r = ex.run_function(ex.closure_of(self.LQ, owner=e.TimingEngine), [eng])
+        first = bpms.t[0]
+        if kind == "raise":
+            ex.prove("raises:first-bpm-not-on-beat-0", z3.And(z3.BoolVal(r.cls is ValueError), BV.acc(first, "beat") != 0), f"raised {r!r}")
+            return
+        ex.prove("post:first-bpm-on-beat-0", BV.acc(first, "beat") == 0)
+        init = st.get("init")
+        if init is None:
+            raise Unsupported("_retime_events: the loop over the merged events was not reached")
+        ex.prove("post:initial-state",
+                 z3.And(z3.Length(st["entry"]) == 1,
+                        init == TS_.mk(EN.TE().mk(z3.RealVal(0), BV.acc(first, "value"), EN.tag("BPM"), -offset.t), BV.acc(first, "value"), z3.BoolVal(False))),
+                 "the state list starts with the first BPM at beat 0, time = -offset, outside any warp")
+        # what was merged: each of the seven event lists, with its own tag
+        m = ex.ghost["merge"]
+        want = {"WARP": wstarts.t, "WARP_END": wends.t, "BPM": z3.SubSeq(bpms.t, 1, z3.Length(bpms.t) - 1), "DELAY": delays.t, "DELAY_END": delays.t,
+                "STOP": stops.t, "STOP_END": stops.t}
+        j = fresh_term(z3.IntSort(), "j")
+        seen, conj = [], [z3.BoolVal(len(m["inputs"]) == 7)]
+        for it in m["inputs"]:
+            x = it.at(ex, j)
+            tg_ = x.get("tag") if isinstance(x, NTVal) else None
+            tagname = tg_.name if isinstance(tg_, e.EventTag) else None
+            if tagname is None or tagname in seen:
+                conj.append(z3.BoolVal(False))
+                continue
+            seen.append(tagname)
+            src = want[tagname]
+            conj.append(z3.And(it.length == z3.Length(src),
+                               z3.Implies(z3.And(j >= 0, j < z3.Length(src)),
+                                          z3.And(coerce(x.get("beat"), FRAC).t == BV.acc(src[j], "beat"), coerce(x.get("value"), FRAC).t == BV.acc(src[j], "value")))))
+        ex.prove("call-pre:merge-inputs", z3.And(conj),
+                 "the merged events are the coalesced warp starts / ends, the BPM changes after the first, every delay and stop once as its start and once as its end, each under its own tag")
+        # the look-up tables are the projections of the state list
+        sm_ = eng.fields["_state_machine"].fields["data"]
+        states = sm_.t if is_sym(sm_) else STS.lift(sm_)
+        n = z3.Length(states)
+        k = fresh_term(z3.IntSort(), "k")
+        tb, tt, ts = eng.fields.get("_tagged_beats"), eng.fields.get("_tagged_times"), eng.fields.get("_times")
+        parts = []
+        for obj, what in ((tb, "beat"), (tt, "time")):
+            if not isinstance(obj, SM.LazyList):
+                parts.append(z3.BoolVal(False))
+                continue
+            x = obj.at(ex, k)
+            v, tg_ = key_of(states, k, what)
+            ok = isinstance(x, tuple) and len(x) == 2 and (isinstance(x[1], e.EventTag) or (is_sym(x[1]) and x[1].ty.kind in ("int", "ienum")))
+            parts.append(z3.And(obj.length == n, z3.Implies(z3.And(k >= 0, k < n), z3.And(coerce(x[0], FRAC).t == v, term(x[1], INT) == tg_))) if ok else z3.BoolVal(False))
+        if isinstance(ts, SM.LazyList):
+            x = ts.at(ex, k)
+            parts.append(z3.And(ts.length == n, z3.Implies(z3.And(k >= 0, k < n), coerce(x, FRAC).t == EN.st_time(states[k]))))
+        else:
+            parts.append(z3.BoolVal(False))
+        ex.prove("post:lookup-tables-are-projections", z3.And(parts),
+                 "_tagged_beats[k] == (beat, tag), _tagged_times[k] == (time, tag) and _times[k] == time of state k, one entry per state")
+        ex.prove("post:states-are-the-fold", z3.And(states == FOLD(init, m["out"], z3.Length(m["out"])), n == z3.Length(m["out"]) + 1),
+                 "one state per merged event after the initial one, each obtained from its predecessor by the state-machine step")
+        # the two inductive steps that turn the fold into SM_inv (closed lemmas over the step function)
+        s, ev = fresh_term(TS_.sort(), "s"), fresh_term(TG.sort(), "ev")
+        b, v, tg2 = TG.acc(ev, "beat"), TG.acc(ev, "value"), TG.acc(ev, "tag")
+        evdom = z3.And(v >= 0, z3.Implies(tg2 == EN.tag("BPM"), v > 0))
+        nxt = EN.spec_step(s, ev)
+        ex.prove("lemma:step-keeps-domain", z3.Implies(z3.And(state_domain(s), evdom), state_domain(nxt)),
+                 "a positive BPM and a non-negative value are kept by every step on an event of the domain")
+        ex.prove("lemma:step-time-monotone", z3.Implies(z3.And(state_domain(s), evdom, b >= EN.st_beat(s)), EN.st_time(nxt) >= EN.st_time(s)),
+                 "time never decreases along the state list when the events come in beat order")
